@@ -118,7 +118,7 @@ class RS:
         s.stack = []; s.alt = []; s.vf_size = 0; s.vf_ff = None          # vf_ff: index of first false or None
         s.nop = z3.BitVecVal(0, 32); s.flags = z3.BitVecVal(0, 32); s.sigversion = BASE; s.script = []; s.pc = 0; s.allow_disabled = False
         s.checker = 'base'; s.tx_version = 0; s.tx_locktime = 0; s.tx_sequence = 0
-        s.codesep_pos = 0xffffffff; s.opcode_pos = 0; s.pbch = 0
+        s.codesep_pos = 0xffffffff; s.opcode_pos = 0; s.pbch = 0; s.weight = 0; s.leaf = [0] * 32; s.mock = []
         s.__dict__.update(kw)
     def copy(s):
         t = RS(); t.__dict__.update(s.__dict__); t.stack = [list(x) for x in s.stack]; t.alt = [list(x) for x in s.alt]; return t
@@ -401,3 +401,218 @@ def _extended(ctx, S, n, minimal):
         else: r = z3.LShR(a, b)
         st.pop(); st.pop(); st.append(num_encode(ctx, simp_t(r)))
     else: raise AssertionError(n)
+
+# ====================================================================== signature opcodes (C02 / C11)
+# The cryptographic verdict is an uninterpreted oracle shared with the implementation side (stubs.orc_app):
+#   ORACLE(1, sig, key, scriptCode, sigversion)      ECDSA check of (sig incl. hash type byte) by key over the digest of scriptCode
+#   ORACLE(2, sig, key, leafhash||codesep_pos, sv)   BIP340 check in the taproot/tapscript context
+# and CheckLowS(sig without hash type) is the uninterpreted predicate LOWS_n.
+import stubs as _stubs
+_LOWS = {}
+def lows(sig_wo_ht):
+    n = len(sig_wo_ht)
+    F = _LOWS.get(n)
+    if F is None: F = z3.Function('lows_%d' % n, z3.BitVecSort(8 * n), z3.BoolSort()); _LOWS[n] = F
+    return F(_stubs.cat([B(x) for x in sig_wo_ht], 8))
+
+def valid_der(sig):
+    """BIP66 strict DER + hash type byte, as one boolean term over the bytes of a signature of concrete length"""
+    n = len(sig)
+    if n < 9 or n > 73: return z3.BoolVal(False)
+    s = [B(x) for x in sig]
+    alts = []
+    for lr in range(1, n - 7):
+        ls = n - 7 - lr
+        if ls < 1: continue
+        c = [s[0] == 0x30, s[1] == n - 3, s[2] == 0x02, s[3] == lr, (s[4] & 0x80) == 0, s[4 + lr] == 0x02, s[5 + lr] == ls, (s[6 + lr] & 0x80) == 0]
+        if lr > 1: c.append(z3.Not(z3.And(s[4] == 0, (s[5] & 0x80) == 0)))
+        if ls > 1: c.append(z3.Not(z3.And(s[6 + lr] == 0, (s[7 + lr] & 0x80) == 0)))
+        alts.append(z3.And(*c))
+    return z3.simplify(z3.Or(*alts)) if alts else z3.BoolVal(False)
+
+def defined_hashtype(sig):
+    if not sig: return z3.BoolVal(False)
+    ht = B(sig[-1]) & 0x7f
+    return z3.And(z3.UGE(ht, 1), z3.ULE(ht, 3))
+
+def check_sig_encoding(ctx, sig, flags):
+    if len(sig) == 0: return
+    if ctx.branch(z3.And(z3.Or(flag(flags, 'DERSIG'), flag(flags, 'LOW_S'), flag(flags, 'STRICTENC')), z3.Not(valid_der(sig)))): raise Fail(ERR('SIG_DER'))
+    if ctx.branch(flag(flags, 'LOW_S')):
+        if not ctx.branch(lows(sig[:-1])): raise Fail(ERR('SIG_HIGH_S'))
+    if ctx.branch(z3.And(flag(flags, 'STRICTENC'), z3.Not(defined_hashtype(sig)))): raise Fail(ERR('SIG_HASHTYPE'))
+
+def compressed_or_uncompressed(key):
+    n = len(key)
+    if n < 33: return z3.BoolVal(False)
+    k0 = B(key[0])
+    if n == 65: return k0 == 4
+    if n == 33: return z3.Or(k0 == 2, k0 == 3)
+    return z3.BoolVal(False)
+def compressed(key):
+    if len(key) != 33: return z3.BoolVal(False)
+    return z3.Or(B(key[0]) == 2, B(key[0]) == 3)
+
+def check_pubkey_encoding(ctx, key, flags, sv):
+    if ctx.branch(z3.And(flag(flags, 'STRICTENC'), z3.Not(compressed_or_uncompressed(key)))): raise Fail(ERR('PUBKEYTYPE'))
+    if sv == WITNESS_V0 and ctx.branch(z3.And(flag(flags, 'WITNESS_PUBKEYTYPE'), z3.Not(compressed(key)))): raise Fail(ERR('WITNESS_PUBKEYTYPE'))
+
+def push_encoding(data):
+    n = len(data)
+    if n < 0x4c: return [n] + list(data)
+    if n <= 0xff: return [0x4c, n] + list(data)
+    if n <= 0xffff: return [0x4d] + list(n.to_bytes(2, 'little')) + list(data)
+    return [0x4e] + list(n.to_bytes(4, 'little')) + list(data)
+
+def find_and_delete(ctx, script, pat):
+    """remove every occurrence of the byte pattern that starts at an operation boundary (legacy signature removal). returns (script', count)"""
+    if not pat: return list(script), 0
+    out = []; pc = 0; found = 0; n = len(script)
+    while True:
+        while n - pc >= len(pat):
+            m = z3.And(*[B(script[pc + i]) == B(pat[i]) for i in range(len(pat))])
+            if ctx.branch(m): pc += len(pat); found += 1
+            else: break
+        d = decode_op(script, pc)
+        if d is None:
+            out += script[pc:]; break               # undecodable tail is kept as is
+        o, payload, npc = d
+        out += script[pc:npc]; pc = npc
+        if pc >= n:
+            break
+    return out, found
+
+def oracle(kind, sig, key, ctxbytes, sv):
+    return _stubs.orc_app(kind, [B(x) for x in sig], [B(x) for x in key], [B(x) for x in ctxbytes], sv)
+
+def eval_checksig(ctx, S, sig, key):
+    """returns success (python bool, decided by branching) or raises Fail"""
+    flags = S.flags; sv = S.sigversion
+    mocked = mock_lookup(ctx, S, sig, key)
+    if mocked is True: return True
+    if sv == TAPROOT:
+        ok = ctx.branch(oracle(2, sig, key, list(S.leaf) + le32(S.codesep_pos), sv))
+        if not ok: raise Fail(ANYERR)
+        return True
+    if sv in (BASE, WITNESS_V0):
+        code = list(S.script[S.pbch:])
+        if sv == BASE:
+            code, found = find_and_delete(ctx, code, push_encoding(sig))
+            if found > 0 and ctx.branch(flag(flags, 'CONST_SCRIPTCODE')): raise Fail(ERR('SIG_FINDANDDELETE'))
+        check_sig_encoding(ctx, sig, flags)
+        check_pubkey_encoding(ctx, key, flags, sv)
+        ok = ctx.branch(oracle(1, sig, key, code, sv))
+        if not ok and len(sig) and ctx.branch(flag(flags, 'NULLFAIL')): raise Fail(ERR('SIG_NULLFAIL'))
+        return ok
+    # tapscript (BIP342)
+    ok = len(sig) > 0
+    if ok:
+        S.weight = z3.simplify(B(S.weight, 64) - 50)
+        if ctx.branch(S.weight < 0): raise Fail(ERR('TAPSCRIPT_VALIDATION_WEIGHT'))
+    if len(key) == 0: raise Fail(ERR('PUBKEYTYPE'))
+    if len(key) == 32:
+        if ok and not ctx.branch(oracle(2, sig, key, list(S.leaf) + le32(S.codesep_pos), sv)): raise Fail(ERR('SCHNORR_SIG'))
+    else:
+        if ctx.branch(flag(flags, 'DISCOURAGE_UPGRADABLE_PUBKEYTYPE')): raise Fail(ERR('DISCOURAGE_UPGRADABLE_PUBKEYTYPE'))
+    return ok
+
+def le32(v):
+    v = B(v, 32)
+    return [z3.simplify(z3.Extract(8 * i + 7, 8 * i, v)) for i in range(4)]
+
+def mock_lookup(ctx, S, sig, key):
+    """--pretend-valid pairs: True = listed pair (accept), False = key is mocked but sig differs (fall through to real check), None = key not mocked"""
+    pairs = getattr(S, 'mock', None) or []
+    key_mocked = False
+    for (ms, mk) in pairs:
+        if len(mk) == len(key) and ctx.branch(items_equal(mk, key)):
+            key_mocked = True
+            if len(ms) == len(sig) and ctx.branch(items_equal(ms, sig)): return True
+    return False if key_mocked else None
+
+def ref_sigop(ctx, S):
+    """one signature opcode at S.pc (same outcome structure as ref_step, plus weight)"""
+    S = S.copy()
+    try: _sigop(ctx, S)
+    except Fail as f: return dict(ok=0, err=f.err)
+    return dict(ok=1, stack=S.stack, alt=S.alt, vf=(S.vf_size, S.vf_size if S.vf_ff is None else S.vf_ff), nop=simp_t(B(S.nop, 32)), pc=S.pc, pbch=S.pbch, codesep=S.codesep_pos,
+                weight=simp_t(B(S.weight, 64)))
+
+def _sigop(ctx, S):
+    flags = S.flags; sv = S.sigversion
+    fexec = S.vf_ff is None
+    o = S.script[S.pc]; S.pc += 1
+    n = NAME[o]
+    if sv in (BASE, WITNESS_V0):
+        S.nop = simp_t(B(S.nop, 32) + 1)
+        if ctx.branch(S.nop > MAX_OPS): raise Fail(ERR('OP_COUNT'))
+    if not fexec:
+        if len(S.stack) + len(S.alt) > MAX_STACK: raise Fail(ERR('STACK_SIZE'))
+        return
+    st = S.stack
+    minimal = flag(flags, 'MINIMALDATA')
+    def need(k):
+        if len(st) < k: raise Fail(ERR('INVALID_STACK_OPERATION'))
+    def push_bool(c): st.append([z3.BitVecVal(1, 8)] if c else [])
+    if n in ('OP_CHECKSIG', 'OP_CHECKSIGVERIFY'):
+        need(2)
+        ok = eval_checksig(ctx, S, st[-2], st[-1])
+        st.pop(); st.pop()
+        if n == 'OP_CHECKSIG': push_bool(ok)
+        elif not ok: raise Fail(ERR('CHECKSIGVERIFY'))
+    elif n == 'OP_CHECKSIGADD':
+        if sv in (BASE, WITNESS_V0): raise Fail(ERR('BAD_OPCODE'))
+        need(3)
+        num = num_decode(ctx, st[-2], minimal, 4)
+        ok = eval_checksig(ctx, S, st[-3], st[-1])
+        st.pop(); st.pop(); st.pop()
+        st.append(num_encode(ctx, simp_t(num + (1 if ok else 0))))
+    else:       # OP_CHECKMULTISIG(VERIFY)
+        if sv == TAPSCRIPT: raise Fail(ERR('TAPSCRIPT_CHECKMULTISIG'))
+        need(1)
+        nk_t = getint(num_decode(ctx, st[-1], minimal, 4))
+        if ctx.branch(z3.Or(nk_t < 0, nk_t > MAX_KEYS)): raise Fail(ERR('PUBKEY_COUNT'))
+        nk = None
+        for k in range(0, MAX_KEYS + 1):
+            if ctx.branch(nk_t == k): nk = k; break
+        S.nop = simp_t(B(S.nop, 32) + nk)
+        if ctx.branch(S.nop > MAX_OPS): raise Fail(ERR('OP_COUNT'))
+        need(2 + nk)
+        ns_t = getint(num_decode(ctx, st[-(2 + nk)], minimal, 4))
+        if ctx.branch(z3.Or(ns_t < 0, ns_t > nk)): raise Fail(ERR('SIG_COUNT'))
+        ns = None
+        for k in range(0, nk + 1):
+            if ctx.branch(ns_t == k): ns = k; break
+        need(3 + nk + ns)             # count item, keys, count item, signatures and the extra (dummy) element
+        keys = [st[-(2 + i)] for i in range(nk)]            # keys[0] is the top-most key (checked first)
+        sigs = [st[-(3 + nk + i)] for i in range(ns)]       # sigs[0] is the top-most signature
+        code = list(S.script[S.pbch:])
+        for sg in sigs:
+            if sv == BASE:
+                code, found = find_and_delete(ctx, code, push_encoding(sg))
+                if found > 0 and ctx.branch(flag(flags, 'CONST_SCRIPTCODE')): raise Fail(ERR('SIG_FINDANDDELETE'))
+        isig = 0; ikey = 0; success = True; sigs_left = ns; keys_left = nk
+        while success and sigs_left > 0:
+            sg = sigs[isig]; ky = keys[ikey]
+            m = mock_lookup(ctx, S, sg, ky)
+            if m is None:
+                check_sig_encoding(ctx, sg, flags)
+                check_pubkey_encoding(ctx, ky, flags, sv)
+                ok = ctx.branch(oracle(1, sg, ky, code, sv))
+            elif m is False: raise RefAbort('multisig: mocked key offered a different signature: whether the real check still runs is not prescribed')
+            else: ok = m
+            if ok: isig += 1; sigs_left -= 1
+            ikey += 1; keys_left -= 1
+            if sigs_left > keys_left: success = False
+        # cleanup: all arguments are removed; with NULLFAIL a failed check requires every signature to be empty
+        total = 1 + nk + 1 + ns
+        if not success:
+            for sg in sigs:
+                if len(sg) and ctx.branch(flag(flags, 'NULLFAIL')): raise Fail(ERR('SIG_NULLFAIL'))
+        del st[-total:]
+        if len(st) < 1: raise Fail(ERR('INVALID_STACK_OPERATION'))
+        if len(st[-1]) and ctx.branch(flag(flags, 'NULLDUMMY')): raise Fail(ERR('SIG_NULLDUMMY'))
+        st.pop()
+        if n == 'OP_CHECKMULTISIG': push_bool(success)
+        elif not success: raise Fail(ERR('CHECKMULTISIGVERIFY'))
+    if len(S.stack) + len(S.alt) > MAX_STACK: raise Fail(ERR('STACK_SIZE'))
